@@ -1,9 +1,128 @@
 import UvModel.DriverUtil
-/-! line-protocol driver modes for C05 (stub: no modes yet) -/
-namespace Drivers.C05
-open UvModel.DriverUtil
+import UvModel.StreamW
+/-! line-protocol driver for C05 (stream writes); the other side is harness/c05_sim.c and
+    harness/c05_requpdate.c.
 
-/-- (mode name, action).  `uvdriver <mode>` runs the action (normally `runLines init step`). -/
-def modes : List (String × IO Unit) := []
+  mode `c05`:
+    open <pipe|ipc|tcp|fifo|tcpconn|tcpfail> [d=<0|1>]   stream kind (d = delayed connect error)
+    env <k<n>|e<errno>>...                                more scripted syscall outcomes
+    script <k> <op>...                                    ops of the k-th callback invocation
+    w|wh|t|th <bufs>      uv_write / uv_write2 with handle / uv_try_write / uv_try_write2
+    s | c | run | end     uv_shutdown / uv_close / uv_run(NOWAIT) / final peer report
+    (in scripts: w:<bufs> wh:<bufs> t:<bufs> th:<bufs> s c)
+    <bufs> = comma separated lengths, `LxK` = K buffers of length L
+  mode `c05upd`:  upd <n> <bufs> <widx>    uv__write_req_update alone
+-/
+namespace Drivers.C05
+open UvModel UvModel.DriverUtil UvModel.StreamW
+
+def parseBufs (w : String) : Option (List Nat) :=
+  (w.splitOn ",").foldr (fun item acc =>
+    match acc with
+    | none => none
+    | some l =>
+      match item.splitOn "x" with
+      | [a] => a.toNat?.map (· :: l)
+      | [a, k] => match a.toNat?, k.toNat? with
+        | some a, some k => some (List.replicate k a ++ l)
+        | _, _ => none
+      | _ => none) (some [])
+
+def parseOpWords : List String → Option Op
+  | ["w", b] => (parseBufs b).map (Op.write · false)
+  | ["wh", b] => (parseBufs b).map (Op.write · true)
+  | ["t", b] => (parseBufs b).map (Op.tryWrite · false)
+  | ["th", b] => (parseBufs b).map (Op.tryWrite · true)
+  | ["s"] => some .shutdown
+  | ["c"] => some .close
+  | _ => none
+
+def parseOutcome (w : String) : Option Outcome :=
+  if w.startsWith "k" then (w.drop 1).toString.toNat?.map Outcome.ok
+  else if w.startsWith "e" then (w.drop 1).toString.toNat?.map Outcome.fail
+  else none
+
+def allSome {α : Type} (l : List (Option α)) : Option (List α) :=
+  l.foldr (fun x acc => match x, acc with | some a, some t => some (a :: t) | _, _ => none) (some [])
+
+def kindName : Nat → String
+  | 0 => "write" | 1 => "writev" | _ => "sendmsg"
+
+def fmtEv : Ev → String
+  | .sys k c t r fd => s!"sys {kindName k} {c} {t} {r}{if fd then " fd" else ""}"
+  | .shutsys r => s!"sys shutdown {r}"
+  | .ret rc => s!"ret {rc}"
+  | .obs w _ => s!"obs wqs={w}"
+  | .cb id st => s!"cb {id} {st}"
+  | .shutcb st => s!"shutcb {st}"
+  | .conncb st => s!"conncb {st}"
+  | .closecb => "closecb"
+
+def hex2 (n : Nat) : String :=
+  let d := fun (x : Nat) => "0123456789abcdef".toList.getD x '0'
+  String.ofList [d (n / 16), d (n % 16)]
+
+def byteOf (p : Nat × Nat) : Nat := (p.1 * 131 + p.2 * 7 + 3) % 251
+
+structure DS where
+  s : S := {}
+  script : List (Nat × List Op) := []
+
+def newEvents (old new : S) : List String :=
+  ((new.trace.take (new.trace.length - old.trace.length)).reverse).map fmtEv
+
+def doOps (st : DS) (ops : List LOp) : DS × List String :=
+  let sc : Script := fun k => ((st.script.find? (·.1 = k)).map (·.2)).getD []
+  let s' := runOps sc st.s ops
+  ({ st with s := s' }, newEvents st.s s')
+
+def openState (kind : String) (delayed : Bool) : Option S :=
+  match kind with
+  | "pipe" => some {}
+  | "tcp" => some {}
+  | "ipc" => some { ipc := true }
+  | "fifo" => some { shutErr := -88 }
+  | "tcpconn" => some { connecting := true, pollout := true }
+  | "tcpfail" => some { connecting := true, pollout := true, pending := delayed, connErr := -111 }
+  | _ => none
+
+def step (st : DS) : List String → DS × List String
+  | [] => (st, [])
+  | "open" :: kind :: rest =>
+    match openState kind (rest == ["d=1"]) with
+    | some s => ({ s := s, script := [] }, ["opened"])
+    | none => (st, ["bad-op"])
+  | "env" :: outs =>
+    match allSome (outs.map parseOutcome) with
+    | some l => (doOps st [.feed l]).1 |> fun st' => (st', [])
+    | none => (st, ["bad-op"])
+  | "script" :: k :: ops =>
+    match k.toNat?, allSome (ops.map fun w => parseOpWords (w.splitOn ":")) with
+    | some k, some l => ({ st with script := (k, l) :: st.script }, [])
+    | _, _ => (st, ["bad-op"])
+  | ["run"] => let (st', out) := doOps st loopIter; (st', out ++ [s!"ran wqs={st'.s.wqs}"])
+  | ["end"] =>
+    let s := st.s
+    (st, ["peer " ++ String.join (s.os.map fun p => hex2 (byteOf p)),
+          s!"eof {if s.shut || !s.fdOpen then 1 else 0}"])
+  | ws =>
+    match parseOpWords ws with
+    | some o => doOps st [.api o]
+    | none => (st, ["bad-op"])
+
+/-- mode c05upd: `upd <n> <bufs> <widx>` → new lens, write_index, return value -/
+def updStep (_ : Unit) : List String → Unit × List String
+  | [] => ((), [])
+  | ["upd", n, b, w] =>
+    match n.toNat?, parseBufs b, w.toNat? with
+    | some n, some bufs, some w =>
+      let r : Req := { id := 0, bufs := bufs, widx := w }
+      let u := reqUpdate r n
+      ((), [s!"upd idx={u.1.widx} done={if u.2 then 1 else 0} lens={",".intercalate (u.1.bufs.map toString)}"])
+    | _, _, _ => ((), ["bad-op"])
+  | _ => ((), ["bad-op"])
+
+def modes : List (String × IO Unit) :=
+  [("c05", runLines ({} : DS) step), ("c05upd", runLines () updStep)]
 
 end Drivers.C05
